@@ -1273,4 +1273,212 @@ theorem centerW_ok (v w : List ℝ) (nw : Bool) (h : v.length = w.length) : ∃ 
   · rw [scalar_eq _ _ h]; exact ⟨_, rfl, by simp⟩
 
 
+/-! ### norm, range, center, which, shannon -/
+
+theorem norm_eq (v : List ℝ) : norm v = Real.sqrt (v.map (fun x => x * x)).sum := by
+  simp [norm, foldl_add_eq]
+
+theorem zipWith3_eq {β γ δ ε : Type} (f : β → γ → δ → ε) (a : List β) (b : List γ) (c : List δ) :
+    zipWith3 f a b c = List.zipWith (fun (p : β × γ) z => f p.1 p.2 z) (List.zip a b) c := by
+  induction a generalizing b c with
+  | nil => simp [zipWith3]
+  | cons x xs ih =>
+    cases b with
+    | nil => simp [zipWith3]
+    | cons y ys =>
+      cases c with
+      | nil => simp [zipWith3]
+      | cons z zs => simp [zipWith3, ih]
+
+theorem scalarW_eq (v1 v2 w : List ℝ) (h1 : v1.length = w.length) (h2 : v2.length = w.length) :
+    scalarW v1 v2 w = .ok (zipWith3 (fun a b c => a * b * c) v1 v2 w).sum := by
+  simp [scalarW, h1, h2, foldl_add_eq]
+
+theorem range_spec' (v : List ℝ) (lo hi : ℝ) (h : VecTools.range v = .ok (lo, hi)) :
+    VecTools.min v = .ok lo ∧ VecTools.max v = .ok hi := by
+  cases v with
+  | nil => simp [VecTools.range] at h
+  | cons x xs =>
+    simp only [VecTools.range, Except.ok.injEq] at h
+    simp only [VecTools.min, VecTools.max, extremum, Except.ok.injEq]
+    have key : ∀ (l : List ℝ) (a b : ℝ),
+        l.foldl (fun (r : ℝ × ℝ) y => (if Scalar.ltb y r.1 then y else r.1, if Scalar.gtb y r.2 then y else r.2)) (a, b) =
+        (l.foldl (fun m y => if Scalar.ltb y m then y else m) a, l.foldl (fun m y => if Scalar.gtb y m then y else m) b) := by
+      intro l
+      induction l with
+      | nil => intro a b; rfl
+      | cons y ys ih => intro a b; simp only [List.foldl_cons]; rw [ih]
+    rw [key] at h
+    exact ⟨congrArg Prod.fst h, congrArg Prod.snd h⟩
+
+theorem sum_center (v : List ℝ) (hv : v ≠ []) : (center v).sum = 0 := by
+  rw [center_eq, sum_map_sub_const]
+  have : (v.length : ℝ) ≠ 0 := by
+    have : v.length ≠ 0 := by simpa using hv
+    exact_mod_cast this
+  field_simp; ring
+
+theorem whichFrom_spec {β : Type} (eq : β → β → Bool) (x : β) (v : List β) (k p : Nat) (h : whichFrom eq x k v = .ok p) :
+    k ≤ p ∧ (∃ y, v[p - k]? = some y ∧ eq y x = true) ∧ ∀ y ∈ v.take (p - k), eq y x = false := by
+  induction v generalizing k with
+  | nil => simp [whichFrom] at h
+  | cons y ys ih =>
+    unfold whichFrom at h
+    by_cases hy : eq y x = true
+    · simp only [hy, if_true, Except.ok.injEq] at h
+      subst h
+      exact ⟨le_refl _, ⟨y, by simp, hy⟩, by simp⟩
+    · have hy' : eq y x = false := by simpa using hy
+      simp only [hy', Bool.false_eq_true, if_false] at h
+      obtain ⟨h1, ⟨z, hz, hzx⟩, h3⟩ := ih (k + 1) h
+      have hpk : p - k = (p - (k + 1)) + 1 := by omega
+      refine ⟨by omega, ⟨z, by rw [hpk, List.getElem?_cons_succ]; exact hz, hzx⟩, ?_⟩
+      intro w hw
+      rw [hpk, List.take_succ_cons] at hw
+      rcases List.mem_cons.mp hw with rfl | hw
+      · exact hy'
+      · exact h3 w hw
+
+theorem whichFrom_notfound {β : Type} (eq : β → β → Bool) (x : β) (v : List β) (k : Nat)
+    (h : ∀ y ∈ v, eq y x = false) : whichFrom eq x k v = .error .notfound := by
+  induction v generalizing k with
+  | nil => rfl
+  | cons y ys ih =>
+    unfold whichFrom
+    simp only [h y (by simp), Bool.false_eq_true, if_false]
+    exact ih (k + 1) (fun z hz => h z (by simp [hz]))
+
+theorem shannon_fold (base : ℝ) (v : List ℝ) (a : ℝ) :
+    v.foldl (fun s x => if Scalar.gtb x Scalar.zero then s + x * Scalar.log x / Scalar.log base else s) a =
+      a + ((v.filter (fun x => decide (0 < x))).map (fun x => x * Real.log x / Real.log base)).sum := by
+  induction v generalizing a with
+  | nil => simp
+  | cons x xs ih =>
+    simp only [List.foldl_cons]
+    rw [ih]
+    by_cases hx : 0 < x
+    · simp [hx]; ring
+    · simp [hx]
+
+theorem shannon_eq (v : List ℝ) (base : ℝ) :
+    shannon v base = - ((v.filter (fun x => decide (0 < x))).map (fun x => x * Real.log x / Real.log base)).sum := by
+  unfold shannon; rw [shannon_fold]; simp
+
+theorem list_sum_nonpos (l : List ℝ) (h : ∀ t ∈ l, t ≤ 0) : l.sum ≤ 0 := by
+  induction l with
+  | nil => simp
+  | cons x xs ih =>
+    simp only [List.sum_cons]
+    have := ih (fun t ht => h t (by simp [ht]))
+    linarith [h x (by simp)]
+
+theorem shannon_nonneg' (v : List ℝ) (base : ℝ) (hb : 1 < base) (hv : ∀ x ∈ v, x ≤ 1) : 0 ≤ shannon v base := by
+  rw [shannon_eq, neg_nonneg]
+  apply list_sum_nonpos
+  intro t ht
+  simp only [List.mem_map, List.mem_filter, decide_eq_true_eq] at ht
+  obtain ⟨x, ⟨hx, hpos⟩, rfl⟩ := ht
+  have h1 : Real.log x ≤ 0 := Real.log_nonpos hpos.le (hv x hx)
+  have h2 : 0 < Real.log base := Real.log_pos hb
+  exact div_nonpos_of_nonpos_of_nonneg (mul_nonpos_of_nonneg_of_nonpos hpos.le h1) h2.le
+
+/-! ### whichMaxAll, isUnique, haveSameElements -/
+
+theorem positionsOf_eq (x : ℝ) (k : Nat) (l : List ℝ) :
+    positionsOf x k l = ((List.range l.length).filter (holdsAt Scalar.eqb l x)).map (· + k) := by
+  induction l generalizing k with
+  | nil => simp [positionsOf]
+  | cons y ys ih =>
+    rw [List.length_cons, List.range_succ_eq_map, List.filter_cons, List.filter_map]
+    have hcomp : (holdsAt Scalar.eqb (y :: ys) x ∘ Nat.succ) = holdsAt Scalar.eqb ys x := by
+      funext i; simp [holdsAt]
+    have h0 : holdsAt Scalar.eqb (y :: ys) x 0 = Scalar.eqb y x := by simp [holdsAt]
+    rw [hcomp, h0]
+    simp only [positionsOf, ih (k + 1)]
+    split <;> simp [List.map_map, Function.comp_def, Nat.add_comm, Nat.add_left_comm]
+
+theorem whichMaxAll_spec (v : List ℝ) (pos : List Nat) (h : whichMaxAll v = .ok pos) :
+    ∃ m, VecTools.max v = .ok m ∧ IsPositionsOf Scalar.eqb v m pos := by
+  unfold whichMaxAll at h
+  by_cases hv : v.length = 0
+  · simp [hv] at h; cases h
+  · simp only [hv, if_false] at h
+    cases hm : VecTools.max v with
+    | error e => rw [hm] at h; simp [bind, Except.bind] at h
+    | ok m =>
+      rw [hm] at h
+      simp only [bind, Except.bind, pure, Except.pure, Except.ok.injEq] at h
+      refine ⟨m, rfl, ?_⟩
+      unfold IsPositionsOf
+      rw [← h, positionsOf_eq]; simp
+
+section Sets
+variable {β : Type} [LinearOrder β]
+
+theorem noAdjDup_iff (prev : β) (l : List β) (hs : (prev :: l).Pairwise (· ≤ ·)) :
+    noAdjDup deq prev l = true ↔ (prev :: l).Pairwise (· < ·) := by
+  induction l generalizing prev with
+  | nil => simp [noAdjDup]
+  | cons y ys ih =>
+    have hpy : prev ≤ y := (List.pairwise_cons.mp hs).1 y (by simp)
+    have hs' : (y :: ys).Pairwise (· ≤ ·) := (List.pairwise_cons.mp hs).2
+    unfold noAdjDup
+    by_cases hy : y = prev
+    · subst hy
+      simp only [deq, decide_true, if_true, Bool.false_eq_true, false_iff]
+      intro hp
+      exact absurd ((List.pairwise_cons.mp hp).1 y (by simp)) (lt_irrefl _)
+    · have hd : deq y prev = false := by simp [hy]
+      simp only [hd, Bool.false_eq_true, if_false]
+      rw [ih y hs']
+      have hlt : prev < y := lt_of_le_of_ne hpy (Ne.symm hy)
+      constructor
+      · intro hp
+        rw [List.pairwise_cons]
+        refine ⟨fun z hz => ?_, hp⟩
+        rcases List.mem_cons.mp hz with rfl | hz
+        · exact hlt
+        · exact lt_of_lt_of_le hlt ((List.pairwise_cons.mp hs').1 z hz)
+      · intro hp; exact (List.pairwise_cons.mp hp).2
+
+theorem isUnique_iff' (v : List β) : isUnique deq dlt v = true ↔ v.Nodup := by
+  unfold isUnique
+  have hs := sorted_mergeSort_dlt v
+  have hp : (v.mergeSort (leOfLt dlt)).Perm v := List.mergeSort_perm _ _
+  rw [← hp.nodup_iff]
+  generalize v.mergeSort (leOfLt dlt) = s at hs hp
+  cases s with
+  | nil => simp
+  | cons x xs =>
+    simp only
+    rw [noAdjDup_iff x xs hs]
+    constructor
+    · intro h; exact h.imp (fun {a b} hab => ne_of_lt hab)
+    · intro h
+      have := hs.and h
+      exact this.imp (fun {a b} hab => lt_of_le_of_ne hab.1 hab.2)
+
+theorem listEq_iff (l1 l2 : List β) : listEq deq l1 l2 = true ↔ l1 = l2 := by
+  induction l1 generalizing l2 with
+  | nil => cases l2 <;> simp [listEq]
+  | cons x xs ih =>
+    cases l2 with
+    | nil => simp [listEq]
+    | cons y ys => simp [listEq, ih ys]
+
+theorem haveSameElements_iff' (a b : List β) : haveSameElements deq dlt a b = true ↔ a.Perm b := by
+  unfold haveSameElements
+  have pa : (a.mergeSort (leOfLt dlt)).Perm a := List.mergeSort_perm _ _
+  have pb : (b.mergeSort (leOfLt dlt)).Perm b := List.mergeSort_perm _ _
+  by_cases hl : a.length = b.length
+  · simp only [hl, ne_eq, not_true_eq_false, if_false, listEq_iff]
+    constructor
+    · intro h; exact pa.symm.trans (h ▸ pb)
+    · intro h
+      exact List.Perm.eq_of_pairwise (le := (· ≤ ·)) (fun x y _ _ h1 h2 => le_antisymm h1 h2)
+        (sorted_mergeSort_dlt a) (sorted_mergeSort_dlt b) (pa.trans (h.trans pb.symm))
+  · simp only [hl, ne_eq, not_false_eq_true, if_true, Bool.false_eq_true, false_iff]
+    intro h; exact hl h.length_eq
+end Sets
+
 end Bpp.VecTools
